@@ -103,21 +103,33 @@ def parseFile (ops : CharOps) (content : List Char) : Except Err (List Char) :=
 
 abbrev Palette := AA → String
 
-def htmlPrefix : String := "<p style=\"font-family:Courier;\">"
-def htmlSuffix : String := "</p>"
+/-- `<p style="font-family:Courier;">` -/
+def htmlPrefixC : List Char :=
+  ['<','p',' ','s','t','y','l','e','=','"','f','o','n','t','-','f','a','m','i','l','y',':','C','o','u','r','i','e','r',';','"','>']
+/-- `</p>` -/
+def htmlSuffixC : List Char := ['<','/','p','>']
+/-- `<span style="color:` -/
+def spanOpenC : List Char := ['<','s','p','a','n',' ','s','t','y','l','e','=','"','c','o','l','o','r',':']
+/-- `">` -/
+def spanMidC : List Char := ['"','>']
+/-- `</span>` -/
+def spanCloseC : List Char := ['<','/','s','p','a','n','>']
+/-- `<br>` -/
+def brC : List Char := ['<','b','r','>']
 
-def spanOf (pal : Palette) (a : AA) : String :=
-  "<span style=\"color:" ++ pal a ++ "\">" ++ String.singleton a.toChar ++ "</span>"
+def spanC (col : List Char) (a : AA) : List Char := spanOpenC ++ col ++ spanMidC ++ [a.toChar] ++ spanCloseC
 
-/-- one residue with index `i`: a space opens every block of 10, a `<br>` every block of 50 -/
-def renderOne (pal : Palette) (i : Nat) (a : AA) : String :=
-  (if i % 10 = 0 then " " else "") ++ (if i % 50 = 0 then "<br>" else "") ++ spanOf pal a
+/-- what precedes residue number `i` (0-based): a space opens every block of 10, a `<br>` every block of 50 -/
+def sepC (i : Nat) : List Char := (if i % 10 = 0 then [' '] else []) ++ (if i % 50 = 0 then brC else [])
 
-def renderFrom (pal : Palette) : Nat → Seq → String
-  | _, [] => ""
-  | i, a :: rest => renderOne pal i a ++ renderFrom pal (i + 1) rest
+/-- the loop of `get_HTMLColorString` with its counter -/
+def renderFromC (pal : AA → List Char) : Nat → Seq → List Char
+  | _, [] => []
+  | i, a :: rest => sepC i ++ spanC (pal a) a ++ renderFromC pal (i + 1) rest
 
-def render (pal : Palette) (s : Seq) : String := htmlPrefix ++ renderFrom pal 0 s ++ htmlSuffix
+def renderC (pal : AA → List Char) (s : Seq) : List Char := htmlPrefixC ++ renderFromC pal 0 s ++ htmlSuffixC
+
+def render (pal : Palette) (s : Seq) : String := String.ofList (renderC (fun a => (pal a).toList) s)
 
 /-- the 17 standard HTML colour names (documented list) -/
 def htmlColours : List String :=
@@ -135,7 +147,7 @@ def checkPalette (d : PyDict) : Option Palette :=
   if AA.all.all (fun a => match d.get? (String.singleton a.toChar) with
       | some c => htmlColours.contains c
       | none => false)
-  then some (fun a => ((d.get? (String.singleton a.toChar)).getD "").toLower)
+  then some (fun a => (d.get? (String.singleton a.toChar)).getD "")  -- `.lower()` is the identity on the 17 names
   else none
 
 def setPalette (cur : Palette) (d : PyDict) : Palette × Bool :=
@@ -146,8 +158,10 @@ def setPalette (cur : Palette) (d : PyDict) : Palette × Bool :=
 /-- strip the markup: drop everything between '<' and '>' and all spaces -/
 def stripMarkup : List Char → Bool → List Char
   | [], _ => []
-  | '<' :: cs, _ => stripMarkup cs true
-  | '>' :: cs, true => stripMarkup cs false
-  | c :: cs, inTag => if inTag ∨ c = ' ' then stripMarkup cs inTag else c :: stripMarkup cs inTag
+  | c :: cs, inTag =>
+    if c = '<' then stripMarkup cs true
+    else if c = '>' ∧ inTag = true then stripMarkup cs false
+    else if inTag = true ∨ c = ' ' then stripMarkup cs inTag
+    else c :: stripMarkup cs inTag
 
 end Cider
